@@ -30,6 +30,8 @@ func init() {
 			{Name: "property-value-cut-with-trimright", File: "guidedremediation/internal/manifest/maven/pomxml.go", Old: "patches[s1[start+2:end]] = s2[start : len(s2)-len(remainder)]", New: "patches[s1[start+2:end]] = strings.TrimRight(s2[start:], remainder)", Rule: "D8-no-computed-cutset", Site: "generatePropertyPatchesAux"},
 			{Name: "section-marked-under-other-origin", File: "guidedremediation/internal/manifest/maven/pomxml.go", Old: "				o := mavenOrigin(prefix, id, mavenutil.OriginManagement)\n				updated[o] = true\n", New: "				o := mavenOrigin(prefix, id, mavenutil.OriginManagement)\n				updated[mavenutil.OriginManagement] = true\n", Rule: "D6-section-bookkeeping", Site: "writeProject"},
 			{Name: "differing-entry-overwritten", File: "guidedremediation/internal/manifest/npm/packagejson.go", Old: "			depStr = \"dependencies.\" + key\n			if res := gjson.GetBytes(manif, depStr); res.Exists() {\n				ver := res.String()\n				if ver != origVer {\n					if !alreadyMatched {\n						return fmt.Errorf(\"original dependency version does not match patch: %s %q != %q\", name, ver, origVer)\n					}\n					// dependency was already matched, so we can ignore it.\n				} else {\n", New: "			depStr = \"dependencies.\" + key\n			if res := gjson.GetBytes(manif, depStr); res.Exists() {\n				ver := res.String()\n				if ver != origVer && !alreadyMatched {\n					return fmt.Errorf(\"original dependency version does not match patch: %s %q != %q\", name, ver, origVer)\n				}\n				{\n", Rule: "D7-addressed-only", Site: "Write"},
+			{Name: "writer-compares-raw-project-key", File: "guidedremediation/internal/manifest/maven/pomxml.go", Old: "		if mavenutil.ProjectKey(proj) != parent.ProjectKey || proj.Packaging != \"pom\" {", New: "		if proj.ProjectKey != parent.ProjectKey || proj.Packaging != \"pom\" {", Rule: "D9-identity", Site: "parent-key"},
+			{Name: "original-dependency-matched-by-name", File: "guidedremediation/internal/manifest/maven/pomxml.go", Old: "		if d.Key() == dependency.Key() && d.Version != \"\" {", New: "		if d.Name() == dependency.Name() && d.Version != \"\" {", Rule: "D9-identity", Site: "dependency-name"},
 		},
 		Neutral: c13Neutral,
 	})
@@ -52,6 +54,7 @@ func runC13(p *Prog, r *Report) {
 	r.Rule("D3-applied-or-error", "package.json: an update is applied or Write fails")
 	r.Rule("D4-identity", "package.json: the buffer changes only inside the update loop; it is what gets written")
 	r.Rule("D5-origin-separator", "pom.xml: origin strings are split, joined and trimmed with the '@' separator")
+	r.Rule("D9-identity", "pom.xml: projects and dependencies are identified the same way by the reader and the writer")
 	r.Rule("D7-addressed-only", "package.json: an entry is rewritten only when its current value equals the update's original version")
 	r.Rule("D8-no-computed-cutset", "manifest writers never trim with a computed cutset (suffix/prefix removal uses TrimSuffix/TrimPrefix/slicing)")
 	r.Rule("D6-section-bookkeeping", "pom.xml: a section is marked as handled under the origin whose patches were applied to it")
@@ -73,6 +76,7 @@ func runC13(p *Prog, r *Report) {
 	c13Sections(p, r)
 	c13Addressed(p, r)
 	c13Cutsets(p, r)
+	c13Identity(p, r)
 }
 
 func c13PackageJSON(p *Prog, r *Report) {
@@ -610,4 +614,68 @@ func c13Cutsets(p *Prog, r *Report) {
 		})
 	}
 	r.Count("Trim-family calls in the manifest writers", n)
+}
+
+// c13Identity: (a) a candidate local parent POM is recognised by comparing the parent's coordinates
+// with mavenutil.ProjectKey(candidate) — the helper that fills group/version inherited from the
+// candidate's own parent — at every site (the reader's two in mavenutil, the writer's one): a site that
+// compares the raw ProjectKey field disagrees with the others for the usual multi-module layout;
+// (b) two dependencies are the same requirement when their Key() (group, artifact, type, classifier)
+// agree: an equality of two Name() results as an identity test merges type/classifier variants.
+func c13Identity(p *Prog, r *Report) {
+	na, nb := 0, 0
+	for _, fn := range p.FuncsIn("guidedremediation/internal/manifest/maven", "internal/mavenutil") {
+		forEachInstr(fn, func(_ *ssa.BasicBlock, _ int, in ssa.Instruction) {
+			bo, ok := in.(*ssa.BinOp)
+			if !ok || (bo.Op != token.EQL && bo.Op != token.NEQ) {
+				return
+			}
+			// (a)
+			if nm := namedOf(bo.X.Type()); nm != nil && nm.Obj().Name() == "ProjectKey" {
+				isParentKey := func(v ssa.Value) bool {
+					s, f, _, ok := fieldOf(loadAddr(v))
+					return ok && f == "ProjectKey" && s == "Parent"
+				}
+				isHelper := func(v ssa.Value) bool {
+					c, _ := callValue(v)
+					return c != nil && refOf(c.Common()).is(fp("internal/mavenutil"), "", "ProjectKey")
+				}
+				var other ssa.Value
+				switch {
+				case isParentKey(bo.X):
+					other = bo.Y
+				case isParentKey(bo.Y):
+					other = bo.X
+				default:
+					return
+				}
+				na++
+				r.Check(isHelper(other), "D9-identity", fmt.Sprintf("%s:parent-key#%d", fnKey(fn), na), p.Pos(bo.Pos()), "parent coordinates compared with mavenutil.ProjectKey(candidate)", "a candidate parent POM is identified by its raw ProjectKey instead of mavenutil.ProjectKey(candidate): a local parent that inherits its groupId/version is accepted when reading but rejected when writing (or vice versa), so updates to requirements declared there are reported as written while the parent file is left untouched")
+				return
+			}
+			// (b)
+			isMethod := func(v ssa.Value, name string) bool {
+				c, _ := callValue(v)
+				if c == nil || c.Call.StaticCallee() == nil || c.Call.StaticCallee().Name() != name {
+					return false
+				}
+				rcv := c.Call.StaticCallee().Signature.Recv()
+				if rcv == nil {
+					return false
+				}
+				n := namedOf(rcv.Type())
+				return n != nil && strings.Contains(n.Obj().Name(), "Dependenc")
+			}
+			if isMethod(bo.X, "Key") && isMethod(bo.Y, "Key") {
+				nb++
+				r.OK("D9-identity", fmt.Sprintf("%s:dependency-key#%d", fnKey(fn), nb), p.Pos(bo.Pos()), "dependencies matched on Key()")
+			}
+			if isMethod(bo.X, "Name") && isMethod(bo.Y, "Name") {
+				nb++
+				r.Fail("D9-identity", fmt.Sprintf("%s:dependency-name#%d", fnKey(fn), nb), p.Pos(bo.Pos()), "two dependencies are matched on Name() (group:artifact) only: variants that differ in type or classifier are taken for the same requirement, so an update lands on the wrong entry and the addressed one keeps its old version")
+			}
+		})
+	}
+	r.Instances("D9-identity", "parent-coordinate comparisons", na, 3)
+	r.Instances("D9-identity", "dependency identity comparisons", nb, 1)
 }
